@@ -92,6 +92,7 @@ import iodata
 repo = os.path.dirname(os.path.dirname(iodata.__file__))
 data = os.path.join(repo, "iodata", "test", "data")
 tmp = tempfile.mkdtemp()
+__import__("atexit").register(__import__("shutil").rmtree, tmp, True)
 seed = int(sys.argv[1])
 PRELUDE = '''
 import hashlib, os, sys, warnings, json
